@@ -17,7 +17,9 @@ extern volatile bool bidib_lowlevel_debug_mode;
 extern const int bidib_response_info[0x80][5];
 
 /* vdrv.c */
-extern FILE *vout;
+extern __thread FILE *vout;
+extern FILE *vout_real;
+void out_raw(const char *s);
 void out_lock(void);
 void out_unlock(void);
 void out_hex(const uint8_t *b, size_t n);
@@ -55,6 +57,8 @@ bool sched_active(void);
 void out_thr(void);
 void out_locks(void);
 void lock_trace_enable(bool on);
-void conc_run(int n, char **tok, int lineno);
+void conc_run(char **lines, size_t nlines, int lineno);
+unsigned long sched_stamp(void);
+void sched_log_write(const uint8_t *b, size_t n);
 
 #endif
